@@ -89,9 +89,6 @@ vp_ref_put(uint8_t *img, size_t cap, size_t base, size_t *len, const uint8_t *re
 
 /* ------------------------------------------------------------ decoder */
 
-#ifndef VP_REF_MAXREC
-#define VP_REF_MAXREC 4
-#endif
 #ifndef VP_REF_MAXLEN
 #define VP_REF_MAXLEN 64
 #endif
@@ -99,137 +96,171 @@ vp_ref_put(uint8_t *img, size_t cap, size_t base, size_t *len, const uint8_t *re
 #define VP_REF_MAXREP 8
 #endif
 
-struct vp_ref_out {
-  int nrec;
-  size_t rlen[VP_REF_MAXREC];
-  uint8_t rdata[VP_REF_MAXREC][VP_REF_MAXLEN];
+/* Upstream LevelDB's reader (db/log_reader.cc) numbers its internal results
+ * kEof = kMaxRecordType + 1 (5) and kBadRecord = kMaxRecordType + 2 (6) and
+ * hands a checksum-valid physical record's type byte through unfiltered, so
+ * that on crafted input a *valid* record of type 5 ends the current read
+ * silently (not sticky) and one of type 6 is skipped like a bad record
+ * (reported only inside a fragmented record).  lcdb inherits this
+ * (log_reader.c, enum LDB_EOF/LDB_BAD_RECORD).  No writer, truncation or
+ * checksum-detected alteration produces such a record.  With
+ * VP_REF_TYPE_ALIAS 1 the reference follows upstream; with 0 it is strict
+ * (both are "unknown record type" drops) and the d.* obligations fail on the
+ * unchanged tree with the 7-byte input <valid checksum> 00 00 05. */
+#ifndef VP_REF_TYPE_ALIAS
+#define VP_REF_TYPE_ALIAS 1
+#endif
+
+/* reading position of the reference reader */
+struct vp_ref_dec {
+  const uint8_t *img0; /* img0[i] = file byte base + i */
+  size_t base;         /* absolute offset of img0[0] (reader starts here, at a
+                          physical record boundary, outside a logical record) */
+  size_t n;            /* bytes available: the file length is base + n */
+  size_t bstart;       /* absolute start of the current block */
+  size_t p;            /* absolute read position */
   int nrep;
-  size_t rep[VP_REF_MAXREP]; /* dropped-byte count of each report */
+  size_t rep[VP_REF_MAXREP]; /* dropped-byte count of each report, in order */
 };
 
 static void
-vp_ref_report(struct vp_ref_out *o, size_t bytes) {
-  VP_ASSERT(o->nrep < VP_REF_MAXREP, "vp-model: reference report list full");
-  if (o->nrep < VP_REF_MAXREP)
-    o->rep[o->nrep] = bytes;
-  o->nrep++;
+vp_ref_dec_init(struct vp_ref_dec *d, const uint8_t *img0, size_t base, size_t n) {
+  d->img0 = img0;
+  d->base = base;
+  d->n = n;
+  d->bstart = base - base % VP_REF_BLK;
+  d->p = base;
+  d->nrep = 0;
 }
 
-/* Decode the file bytes [base, base+n) given as img[0..n) (img[i] is the file
- * byte at absolute offset base + i; the reader is positioned at base, at a
- * physical record boundary, not inside a logical record; checksums verified).
- * Records and drop reports in the order a LevelDB reader produces them.
- * maxphys bounds the number of physical steps (harness loop bound). */
 static void
-vp_ref_decode(const uint8_t *img0, size_t base, size_t n, struct vp_ref_out *o, int maxphys) {
-  const size_t len = base + n;              /* file length */
-  size_t bstart = base - base % VP_REF_BLK; /* start of the current block */
-  size_t p = base;                          /* read position (absolute) */
-  int infrag = 0;    /* inside FIRST .. LAST */
-  size_t acc = 0;    /* bytes assembled so far */
+vp_ref_report(struct vp_ref_dec *d, size_t bytes) {
+  VP_ASSERT(d->nrep < VP_REF_MAXREP, "vp-model: reference report list full");
+  if (d->nrep < VP_REF_MAXREP)
+    d->rep[d->nrep] = bytes;
+  d->nrep++;
+}
+
+/* One ReadRecord call: 1 = a logical record (copied to out[0..*outlen)),
+ * 0 = end of input.  maxphys bounds the physical steps (harness loop bound). */
+static int
+vp_ref_next(struct vp_ref_dec *d, uint8_t *out, size_t *outlen, int maxphys) {
+  const size_t len = d->base + d->n; /* file length */
+  int infrag = 0;                    /* inside FIRST .. LAST (per call) */
+  size_t acc = 0;                    /* bytes assembled so far */
   int step;
 
-  o->nrec = 0;
-  o->nrep = 0;
+  *outlen = 0;
 
   for (step = 0; step < maxphys; step++) {
-    size_t bend = bstart + VP_REF_BLK;
+    size_t bend = d->bstart + VP_REF_BLK;
     int lastblock = 0;
-    size_t plen, i;
-    int type, good = 0, bad = 0;
+    size_t plen = 0, i;
+    int type = 0, good = 0, bad = 0;
 
     if (bend > len) {
       bend = len;
       lastblock = 1; /* a short (or empty) block read means end of file */
     }
-    if (bend - p < VP_REF_HDR) {
-      if (lastblock)
-        return; /* clean EOF or torn header: silent; a partial logical record is dropped silently */
+
+    if (bend - d->p < VP_REF_HDR) {
+      if (lastblock) {
+        /* clean EOF or torn header: silent; a partial logical record is
+         * dropped silently; sticky */
+        d->p = bend;
+        return 0;
+      }
       /* block trailer: go to the next block */
-      bstart += VP_REF_BLK;
-      p = bstart;
+      d->bstart += VP_REF_BLK;
+      d->p = d->bstart;
       continue;
     }
 
     {
-      const uint8_t *img = img0 + (p - base);
-      plen = (size_t)img[4] | ((size_t)img[5] << 8);
-      type = img[6];
-    }
+      const uint8_t *h = d->img0 + (d->p - d->base);
+      plen = (size_t)h[4] | ((size_t)h[5] << 8);
+      type = h[6];
 
-    if (p + VP_REF_HDR + plen > bend) {
-      if (lastblock)
-        return; /* torn payload at the end of the file: silent */
-      vp_ref_report(o, bend - p); /* bad record length */
-      bad = 1;
-      p = bend;
-    } else if (type == 0 && plen == 0) {
-      bad = 1; /* preallocated zeroes: rest of the block skipped silently */
-      p = bend;
-    } else {
-      const uint8_t *img = img0 + (p - base);
-      uint32_t stored = (uint32_t)img[0] | ((uint32_t)img[1] << 8) |
-                        ((uint32_t)img[2] << 16) | ((uint32_t)img[3] << 24);
-      if (stored != vp_ref_frag_cksum(type, img + VP_REF_HDR, plen)) {
-        vp_ref_report(o, bend - p); /* checksum mismatch: rest of the block dropped */
+      if (d->p + VP_REF_HDR + plen > bend) {
+        size_t dropped = bend - d->p;
+        d->p = bend;
+        if (lastblock)
+          return 0; /* torn payload at the end of the file: silent */
+        vp_ref_report(d, dropped); /* bad record length */
         bad = 1;
-        p = bend;
+      } else if (type == 0 && plen == 0) {
+        bad = 1; /* preallocated zeroes: rest of the block skipped silently */
+        d->p = bend;
       } else {
-        good = 1;
+        uint32_t stored = (uint32_t)h[0] | ((uint32_t)h[1] << 8) |
+                          ((uint32_t)h[2] << 16) | ((uint32_t)h[3] << 24);
+        if (stored != vp_ref_frag_cksum(type, h + VP_REF_HDR, plen)) {
+          vp_ref_report(d, bend - d->p); /* checksum mismatch: rest of the block dropped */
+          bad = 1;
+          d->p = bend;
+        } else {
+          good = 1;
+          d->p += VP_REF_HDR + plen;
+#if VP_REF_TYPE_ALIAS
+          if (type == 5)
+            return 0; /* upstream aliasing: taken for end of file, silently, not sticky */
+          if (type == 6) {
+            good = 0;
+            bad = 1; /* upstream aliasing: taken for a bad record */
+          }
+#endif
+        }
       }
-    }
 
-    if (bad) {
-      if (infrag) {
-        vp_ref_report(o, acc); /* error in middle of record */
-        infrag = 0;
-        acc = 0;
-      }
-      continue;
-    }
-
-    if (good) {
-      const uint8_t *d = img0 + (p - base) + VP_REF_HDR;
-      p += VP_REF_HDR + plen;
-
-      if (type == 1 || type == 2) {
-        if (infrag && acc > 0)
-          vp_ref_report(o, acc); /* partial record without end */
-        VP_ASSERT(o->nrec < VP_REF_MAXREC && plen <= VP_REF_MAXLEN, "vp-model: reference record store full");
-        for (i = 0; i < plen; i++)
-          o->rdata[o->nrec][i] = d[i];
-        acc = plen;
-        if (type == 1) {
-          o->rlen[o->nrec++] = plen;
+      if (bad) {
+        if (infrag) {
+          vp_ref_report(d, acc); /* error in middle of record */
           infrag = 0;
           acc = 0;
-        } else {
-          infrag = 1;
         }
-      } else if (type == 3 || type == 4) {
-        if (!infrag) {
-          vp_ref_report(o, plen); /* missing start of fragmented record */
-        } else {
-          VP_ASSERT(acc + plen <= VP_REF_MAXLEN, "vp-model: reference record store full");
+        continue;
+      }
+
+      if (good) {
+        const uint8_t *data = h + VP_REF_HDR;
+
+        if (type == 1 || type == 2) {
+          if (infrag && acc > 0)
+            vp_ref_report(d, acc); /* partial record without end */
+          VP_ASSERT(plen <= VP_REF_MAXLEN, "vp-model: reference record store full");
           for (i = 0; i < plen; i++)
-            o->rdata[o->nrec][acc + i] = d[i];
-          acc += plen;
-          if (type == 4) {
-            o->rlen[o->nrec++] = acc;
-            infrag = 0;
-            acc = 0;
+            out[i] = data[i];
+          acc = plen;
+          if (type == 1) {
+            *outlen = acc;
+            return 1;
           }
+          infrag = 1;
+        } else if (type == 3 || type == 4) {
+          if (!infrag) {
+            vp_ref_report(d, plen); /* missing start of fragmented record */
+          } else {
+            VP_ASSERT(acc + plen <= VP_REF_MAXLEN, "vp-model: reference record store full");
+            for (i = 0; i < plen; i++)
+              out[acc + i] = data[i];
+            acc += plen;
+            if (type == 4) {
+              *outlen = acc;
+              return 1;
+            }
+          }
+        } else {
+          /* unknown type (including type 0 with a non-zero length) */
+          vp_ref_report(d, plen + (infrag ? acc : 0));
+          infrag = 0;
+          acc = 0;
         }
-      } else {
-        /* unknown type (including type 0 with a non-zero length) */
-        vp_ref_report(o, plen + (infrag ? acc : 0));
-        infrag = 0;
-        acc = 0;
       }
     }
   }
 
   VP_ASSERT(0, "vp-model: reference decoder step bound");
+  return 0;
 }
 
 #endif /* VP_LOGREF_H */
